@@ -882,6 +882,12 @@ def c09_stale_rerun_expectation(before: Any, tick: Any) -> tuple | None:
     return None
 
 
+def c09_snapshot_is_prefix(snapshot: Any, live: Any) -> bool:
+    """every buffer of the snapshot is a prefix of the live buffer of the same name (the buffers only grew since)"""
+    lv = _bufs(live)
+    return all(lv.get(b, [])[: len(v)] == v for b, v in _bufs(snapshot).items())
+
+
 def c09_rerun_check(before: Any, tick: Any, after: Any, cmds: list) -> list[tuple[str, str]]:
     """`C09_reducer_stale_rerun` on one real (state, TickStepResult) -> (state, commands) step: a stale add
     keeps the invocation in progress on the SAME worker slot, issues exactly one CommandRunWorker for it, and
@@ -906,8 +912,7 @@ def c09_rerun_check(before: Any, tick: Any, after: Any, cmds: list) -> list[tupl
         return out
     got, want = _bufs(now[0].shared_state.collected_events), _bufs(live)
     if got != want:
-        oldb = _bufs(old.shared_state.collected_events).get(buf, [])
-        shape = "old_snapshot_is_prefix" if _bufs(live).get(buf, [])[: len(oldb)] == oldb else "round_completed_in_between"
+        shape = "old_snapshot_is_prefix" if c09_snapshot_is_prefix(old.shared_state.collected_events, live) else "round_completed_in_between"
         out.append((f"C09/rerun_snapshot_not_fresh:{shape}",
                     f"{facts}: re-run with snapshot {got}, the live buffers at that moment are {want}"))
     return out
